@@ -50,6 +50,8 @@ pub struct RunEnv {
     pub sched_replay: Option<PathBuf>,
     /// use the build with the real rayon-core
     pub real_rayon: bool,
+    /// I/O fault seam: short reads/writes and EINTR on read(2)/write(2), seeded
+    pub io_seed: Option<u64>,
 }
 
 pub struct RunResult {
@@ -85,6 +87,7 @@ pub fn run_binary(name: &str, cwd: &Path, files: &[PathBuf], extra: &[&str], out
     cmd.env_remove("VERIF_SCHED_REPLAY");
     cmd.env_remove("VERIF_HASH_SEED");
     cmd.env_remove("LD_PRELOAD");
+    cmd.env_remove("VERIF_IO_SEED");
     if let Some(t) = env.threads {
         cmd.env("RAYON_NUM_THREADS", t.to_string());
     }
@@ -97,6 +100,10 @@ pub fn run_binary(name: &str, cwd: &Path, files: &[PathBuf], extra: &[&str], out
     }
     if let Some(p) = &env.sched_replay {
         cmd.env("VERIF_SCHED_REPLAY", p);
+    }
+    if let Some(io) = env.io_seed {
+        cmd.env("VERIF_IO_SEED", io.to_string());
+        cmd.env("LD_PRELOAD", verif_dir().join("target").join("libverif_getrandom.so"));
     }
     if let Some(h) = env.hash_seed {
         cmd.env("VERIF_HASH_SEED", h.to_string());
